@@ -26,15 +26,25 @@ def worker_families(res, quick, thorough, random_legs=True):
 
 
 def c01(res):
-    worker_families(res, ["MC_SendCoreQuick", "MC_SendWrapReal"], ["MC_SendCoreFull", "MC_SendDup", "MC_SendWrapRealDeep"])
+    worker_families(res, ["MC_SendCoreQuick", "MC_SendDup", "MC_SendWrapReal"], ["MC_SendCoreFull", "MC_SendDup", "MC_SendWrapRealDeep"])
+    file_scenario_deviations(res, boundary_transfers(res, "download", "c01-boundary"), "c01-boundary",
+                             "download through the real process is not a behaviour of the sender specification")
 
 
 def c02(res):
     worker_families(res, ["MC_RecvCoreQuick", "MC_RecvPrefill", "MC_RecvWrapReal"], ["MC_RecvCoreFull", "MC_RecvPrefill", "MC_RecvDup", "MC_RecvWrapRealDeep"])
+    file_scenario_deviations(res, boundary_transfers(res, "upload", "c02-boundary"), "c02-boundary",
+                             "upload through the real process (real socket receive path) is not a behaviour of the receiver specification")
 
 
 def c07(res):
+    slow = BackgroundProbe(silent_peer_scenarios, "c07-silent-default", None, default_timeout=True)
     worker_families(res, ["MC_SendCoreQuick", "MC_RecvCoreQuick"], ["MC_SendCoreFull", "MC_RecvCoreFull"])
+    note = "a silent peer does not lead to the bounded give-up the specification prescribes"
+    for single in (False, True):
+        tag = "c07-silent-%s" % ("single" if single else "multi")
+        file_scenario_deviations(res, silent_peer_scenarios(tag, None, single=single), tag, note)
+    file_scenario_deviations(res, slow.join(), "c07-silent-default", note)
 
 
 def c04(res):
@@ -42,6 +52,24 @@ def c04(res):
     for name in (["MC_ClosedQuick"] if res.tier == "quick" else ["MC_ClosedFull", "MC_ClosedDeep"]):
         W.model_check(res, name, module="MC_TransferClosed")
     worker_families(res, ["MC_SendCoreQuick", "MC_RecvCoreQuick"], ["MC_SendCoreFull", "MC_RecvCoreFull"])
+    # the wiring of the negotiated timeout into the real process: two consecutive losses (far below
+    # the budget) must be survived by retransmission after each timeout
+    sb, srv = with_server("c04-loss", shared=True, ow=True)
+    try:
+        content = X.make_file(4, 8, 5)
+        open(os.path.join(sb.send, "loss.bin"), "wb").write(content)
+
+        def two_silences(c, burst):
+            n = getattr(c, "silences", 0)
+            if c.expected > 1 and n < 2:
+                c.silences = n + 1
+                return [("wait", 1), ("ack", c.expected - 1)] if n == 1 else [("wait", 1)]
+            return [("ack", c.expected - 1)]
+        d = X.Download(srv, "c04-two-losses", b"loss.bin", content, opts=[("blksize", 8), ("timeout", 1)], policy=two_silences)
+        events = X.run_clients(srv, [d])
+    finally:
+        drop_server(sb, srv)
+    file_scenario_deviations(res, events, "c04-two-losses", "two consecutive lost acknowledgements are not survived by retransmission")
 
 
 def c08(res):
@@ -50,8 +78,12 @@ def c08(res):
 
 
 def c13(res):
+    slow = BackgroundProbe(silent_peer_scenarios, "c13-silent-default", None, default_timeout=True)
     worker_families(res, ["MC_RecvCoreQuick", "MC_RecvDevfull"], ["MC_RecvCoreFull", "MC_RecvDevfull"], random_legs=False)
     c13_second_clause(res)
+    note = "a failed upload (silent peer) is not given up and cleaned as the specification prescribes"
+    file_scenario_deviations(res, silent_peer_scenarios("c13-silent-keep", None, clean=False), "c13-silent-keep", note)
+    file_scenario_deviations(res, slow.join(), "c13-silent-default", note)
 
 
 def c15(res):
@@ -389,6 +421,19 @@ def c03(res):
     res.transitions += meta["transitions"]
     run_requests(res, spath, name_requests, fam, SERVER_CONFIGS[:2] if q else SERVER_CONFIGS)
     res.extra["exhaustive"] = True
+    # beyond the alphabet: seeded random / mutated names up to the request limit
+    rng = random.Random(C.seed())
+    parts = [b"a", b"b", b"s", b"..", b".", b"...", b"", b"root", b"rootx", b"send", b"recv", b"sendx", b"outside.txt", b"%2e%2e",
+             b"caf\xc3\xa9", b"\xe2\x80\xa6", b"x" * 254, b"y" * 255, b"z" * 256, b" ", b"a b", b"-", b"~", b"C:", b"\xff"]
+    seps = [b"/", b"\\", b"//", b"\\\\", b"/./", b"/../", b"\\..\\", b"/\\"]
+    vectors = []
+    for i in range(150 if q else 4000):
+        n = rng.choice([1, 1, 2, 2, 3, 4, 6])
+        name = rng.choice([b"", b"/", b"\\", b"../", b"//"]) if rng.random() < 0.4 else b""
+        for j in range(n):
+            name += rng.choice(parts) + (rng.choice(seps) if j + 1 < n or rng.random() < 0.2 else b"")
+        vectors.append({"name": list(name[:440])})
+    run_requests(res, vectors, name_requests, "names-random-seed%d" % C.seed(), SERVER_CONFIGS[:2] if q else SERVER_CONFIGS[:3])
     res.assumptions += ["no symbolic links inside the served trees", "one request per fresh client endpoint; silence is re-confirmed once with a 1 s deadline"]
 
 
@@ -436,6 +481,129 @@ def opts_requests_for(sizes):
     return f
 
 
+def silent_peer_scenarios(tag, tmo_opts, default_timeout=False, single=False, clean=True):
+    """A peer that falls silent (C07, C13, C04): one download and one upload against the real
+    process.  The client logs one `fail` per timeout of the server's worker: the sender must
+    retransmit after each of the first five and give up at the sixth; the receiver must give up
+    after six and (clean-on-error) remove the partial file.  Returns Trace_Transfer events."""
+    sb, srv = with_server(tag, shared=True, single=single, ow=True, clean=clean)
+    events = []
+    try:
+        T = 5 if default_timeout else 1
+        opts = [] if default_timeout else [("blksize", 8), ("timeout", 1)]
+        blk = 512 if default_timeout else 8
+        # upload: one block, then silence
+        u = X.Upload(srv, tag + "-upload", b"silent_up.bin", 4, 5, opts=opts, target=os.path.join(sb.recv, "silent_up.bin"))
+        u.start()
+        if u.started:
+            u.log(e="in", k="data", n=1, id=1, sz="full", dt=0)
+            u.sock.sendto(NET.data(1, X.payload(1, blk)), u.peer)
+            for p in u.recv_some(srv.flags["dup"] + 1, quiet=1.0):
+                if p["k"] == "ack":
+                    u.log(e="out", k="ack", n=p["n"], file=u.file_proj())
+        t_up = time.time()
+        # download: first window acknowledged, then silence; one `fail` per retransmission
+        d = None
+        if not default_timeout:
+            content = X.make_file(5, 8, 5)
+            open(os.path.join(sb.send, "silent_dl.bin"), "wb").write(content)
+            d = X.Download(srv, tag + "-download", b"silent_dl.bin", content, opts=opts + [("windowsize", 2)])
+            d.start()
+            if d.started:
+                d.absorb(d.recv_some(2, quiet=1.0))
+                d.send_input(("ack", d.expected - 1))
+                d.absorb(d.recv_some(2, quiet=1.0))
+                for k in range(6):
+                    d.send_input(("wait", T))
+                    got = d.recv_some(2, quiet=T + 1.2)
+                    d.absorb(got)
+                    if not got:
+                        break
+                d.log(e="quiet")
+        # let the upload's six timeouts pass
+        remaining = 6 * T + 1.0 - (time.time() - t_up)
+        if remaining > 0:
+            time.sleep(remaining)
+        if u.started:
+            for k in range(6):
+                u.log(e="in", k="fail", n=0, dt=T)
+            u.log(e="quiet")
+        X.server_outcomes(srv, [c for c in (u, d) if c is not None], wait=3.0)
+        for c in (u, d):
+            if c is not None:
+                events += c.events
+                c.close()
+    finally:
+        drop_server(sb, srv)
+    return events
+
+
+class BackgroundProbe:
+    """Runs a slow real-time scenario (six default 5 s timeouts) while the check does other work."""
+
+    def __init__(self, fn, *args, **kw):
+        import threading
+        self.result, self.error = None, None
+
+        def run():
+            try:
+                self.result = fn(*args, **kw)
+            except Exception as e:      # reported as a tool error by join()
+                self.error = e
+        self.t = threading.Thread(target=run, daemon=True)
+        self.t.start()
+
+    def join(self):
+        self.t.join(120)
+        if self.error:
+            raise C.ToolError("background probe failed: %r" % (self.error,))
+        return self.result or []
+
+
+def file_scenario_deviations(res, events, tag, prop_note):
+    """Judges per-transfer traces of a scenario that exists for ONE property: every deviation in
+    it is filed under the calling check's property (the scenario is its hypothesis)."""
+    probe = C.Result(res.prop, res.tier)
+    judge_net_trace(probe, events, tag, module="Trace_Transfer", sample_kind="cfg")
+    res.traces += probe.traces
+    res.events += probe.events
+    res.legs += probe.legs
+    res.samples += probe.samples[:1]
+    for sig, desc, rep in probe.violations:
+        res.add_violation(sig, desc, rep)
+    for label, cnt in probe.drift.items():
+        res.add_violation("%s:%s|%s" % (tag, label, res.prop), "%s: %s (%s) x%d in %s" % (res.prop, prop_note, label, cnt, tag),
+                          {"kind": "net-transfers", "label": label, "scenario": tag})
+
+
+def boundary_transfers(res, direction, tag):
+    """Model-client transfers through the real process (real UdpSocket / ServerSocket receive
+    paths) at the block-size boundaries, both port modes."""
+    events = []
+    for single in (False, True):
+        sb, srv = with_server("%s-%s" % (tag, "s" if single else "m"), shared=True, single=single, ow=True)
+        try:
+            clients = []
+            for k, (blk, w) in enumerate([(8, 1), (8, 3), (512, 2), (1468, 1), (65464, 1), (65464, 2), (65463, 1)]):
+                nb, last = (3, 5 if blk == 8 else blk - 1)
+                opts = [("blksize", blk), ("windowsize", w)]
+                if direction == "download":
+                    content = X.make_file(nb, blk, last)
+                    name = "bt_%d.bin" % k
+                    open(os.path.join(sb.send, name), "wb").write(content)
+                    clients.append(X.Download(srv, "%s-b%d-w%d" % (tag, blk, w), name.encode(), content, opts=opts))
+                else:
+                    name = "bt_up_%d.bin" % k
+                    clients.append(X.Upload(srv, "%s-b%d-w%d" % (tag, blk, w), name.encode(), nb, last, opts=opts,
+                                            target=os.path.join(sb.recv, name)))
+            for c in clients:
+                c.sock.setsockopt(__import__("socket").SOL_SOCKET, __import__("socket").SO_RCVBUF, 4 << 20)
+                events += X.run_clients(srv, [c])
+        finally:
+            drop_server(sb, srv)
+    return events
+
+
 def wait_once_policy(seconds):
     """conformant, except that after the first window the client stays silent once for `seconds`"""
     def policy(c, burst):
@@ -452,7 +620,7 @@ def c09_behaviour(res):
     q = res.tier == "quick"
     optsets = [[("blksize", 8), ("windowsize", 3), ("timeout", 1)], [("blksize", 512), ("windowsize", 2)],
                [("windowsize", 4)], [("blksize", 1024)], [("timeout", 2)], [],
-               [("BLKSIZE", 16), ("unknown", 5), ("WindowSize", 2)], [("tsize", 0), ("blksize", 9)]]
+               [("BLKSIZE", 16), ("unknown", 5), ("WindowSize", 2)], [("tsize", 0), ("blksize", 9)], [("blksize", 65464)]]
     if not q:
         optsets += [[("blksize", 65464)], [("blksize", 8), ("windowsize", 64)], [("windowsize", 65535), ("blksize", 8)],
                     [("timeout", 255), ("blksize", 10)]]
@@ -570,8 +738,10 @@ def concurrent_scenario(res, tag, single, k, rng, rounds):
     ok_all = True
     try:
         sid = 0
+        old_socks = []
         for rnd in range(rounds):
             clients = []
+            reuse = []      # sockets of endpoints whose earlier transfer is over: a new request re-routes them
             for c in range(k):
                 blk = rng.choice([8, 9, 16, 512, 1024, 1468])
                 w = rng.choice([1, 1, 2, 3, 4])
@@ -585,10 +755,12 @@ def concurrent_scenario(res, tag, single, k, rng, rounds):
                     content = b"".join(X.payload(1000 * (c + 1) + i, eff_blk if i < nb else last) for i in range(1, nb + 1))
                     with open(os.path.join(sb.send, name.decode()), "wb") as f:
                         f.write(content)
-                    clients.append(X.Download(srv, "dl-%d-%d" % (rnd, c), name, content, opts=opts))
+                    clients.append(X.Download(srv, "dl-%d-%d" % (rnd, c), name, content, opts=opts,
+                                              sock=old_socks.pop() if old_socks and rng.random() < 0.5 else None))
                 else:
                     clients.append(X.Upload(srv, "ul-%d-%d" % (rnd, c), name, nb, last, opts=opts,
-                                            target=os.path.join(sb.recv, name.decode())))
+                                            target=os.path.join(sb.recv, name.decode()),
+                                            sock=old_socks.pop() if old_socks and rng.random() < 0.5 else None))
             for c in clients:
                 c.start()
             live = [c for c in clients if not c.done]
@@ -629,7 +801,11 @@ def concurrent_scenario(res, tag, single, k, rng, rounds):
                 wrong = (c.wire_from != {srv.port}) if single else (srv.port in c.wire_from and c.started and len(c.wire_from) != 1)
                 if c.started and wrong:
                     req_events.append({"e": "portmix", "label": c.label, "ports": sorted(c.wire_from)})
-                c.close()
+                if len(old_socks) < 3 and c.finished_ok:
+                    c.wire_from = set()
+                    old_socks.append(c.sock)      # this endpoint comes back with a new request next round
+                else:
+                    c.close()
             # uploaded files byte-identical on disk
             for c in clients:
                 if isinstance(c, X.Upload) and c.started:
@@ -717,6 +893,10 @@ class UploadHistory:
         size = 512 if i < self.NB else 6
         self.socks[w["ep"]].sendto(NET.data(i, X.payload(wid * 1000 + i, size)), (NET.HOST, w["port"]))
         p, addr = self.recv(w["ep"], 1.0)
+        for _ in range(8):          # copies of earlier ACKs (duplicate-packets mode) may still be queued
+            if p is None or p == {"k": "ack", "n": i}:
+                break
+            p, addr = self.recv(w["ep"], 1.0)
         if p == {"k": "ack", "n": i}:
             w["k"] = i
             self.events.append({"e": "block", "wid": wid})
@@ -757,9 +937,9 @@ class UploadHistory:
                             "mixed": not clean_run, "size": len(b)})
 
 
-def upload_histories(single, ow, clean, rng, n_random):
+def upload_histories(single, ow, clean, rng, n_random, dup=0):
     """The scripted histories (incl. the stale-request history of DESIGN.md D6) and seeded random ones."""
-    sb, srv = with_server("hist", shared=True, single=single, ow=ow, clean=clean)
+    sb, srv = with_server("hist", shared=True, single=single, ow=ow, clean=clean, dup=dup)
     events = []
     alive = True
     try:
@@ -771,6 +951,9 @@ def upload_histories(single, ow, clean, rng, n_random):
                     os.remove(p)
             return h
         scripted = [
+            # the client goes away the moment its upload is complete (matters when the server
+            # still has repeats of the final ACK to send)
+            [("wrq", "c1", "f"), ("block", 1), ("block", 1), ("hangup", "c1"), ("disk", "f")],
             # over a longer file that was there before (overwrite mode only): completion replaces it
             # entirely, a kept partial file is a prefix of what was sent
             [("pre", "f", 4), ("wrq", "c1", "f"), ("block", 1), ("block", 1), ("disk", "f")],
@@ -824,6 +1007,13 @@ def upload_histories(single, ow, clean, rng, n_random):
                                 h.block(st[1])
                         elif not single:
                             h.fail(st[1])
+                elif st[0] == "hangup":
+                    import socket as _s
+                    h.socks[st[1]].close()
+                    time.sleep(0.05)
+                    ns = _s.socket(_s.AF_INET, _s.SOCK_DGRAM)
+                    ns.bind((NET.HOST, 0))
+                    h.socks[st[1]] = ns
                 else:
                     h.disk(st[1])
             # let every worker still alive go (ERROR), unrecorded, so that histories do not leak
@@ -844,11 +1034,12 @@ def c13_second_clause(res):
     rng = random.Random(C.seed())
     for name in ["MC_Server_Iso", "MC_Server_NoOverwrite"] + ([] if q else ["MC_Server_IsoSingle"]):
         W.model_check(res, name, module="MC_Server")
-    combos = [("Multi_Ow_Clean", False, True, True), ("Multi_Ow_Keep", False, True, False),
-              ("Multi_NoOw_Clean", False, False, True), ("Single_Ow_Clean", True, True, True)]
-    for cname, single, ow, clean in (combos[:3] if q else combos):
-        events, alive = upload_histories(single, ow, clean, rng, 6 if q else 60)
-        tag = "upload-histories-" + cname
+    combos = [("Multi_Ow_Clean", False, True, True, 0), ("Multi_Ow_Keep", False, True, False, 0),
+              ("Multi_NoOw_Clean", False, False, True, 0), ("Multi_Ow_Clean", False, True, True, 3),
+              ("Single_Ow_Clean", True, True, True, 0)]
+    for cname, single, ow, clean, dup in (combos[:4] if q else combos):
+        events, alive = upload_histories(single, ow, clean, rng, (6 if q else 60) if dup == 0 else 1, dup=dup)
+        tag = "upload-histories-" + cname + ("-dup%d" % dup if dup else "")
         tdir = os.path.join(C.WORK, "traces")
         os.makedirs(tdir, exist_ok=True)
         tpath = os.path.join(tdir, "%s-%d.trace.ndjson" % (tag, os.getpid()))
@@ -1012,7 +1203,7 @@ def c14(res):
     W.model_check(res, "MC_ClosedQuick" if q else "MC_ClosedFull", module="MC_TransferClosed")
     C.build_bins()
     grid = []
-    blks = [8, 512, 1468] if q else [8, 9, 512, 1468, 65464]
+    blks = [8, 512, 1468, 65464] if q else [8, 9, 512, 1468, 65463, 65464]
     wins = [1, 2, 7, 64] if q else [1, 2, 3, 7, 64, 512]
     for direction in ("download", "upload"):
         for blk in blks:
@@ -1021,7 +1212,7 @@ def c14(res):
                                        [(1, 0), (1, 1), (2, 0), (2, 1), (3, 1), (4, 0), (7, 1), (8, 1), (9, 0), (65, 1)]):
                     grid.append((direction, blk, w, nb, lastkind))
     rng.shuffle(grid)
-    grid = grid[:28 if q else 400]
+    grid = grid[:32 if q else 400]
     xfer_events, finals = [], []
     for single in (False, True):
         sb, srv = with_server("interop-%s" % ("s" if single else "m"), shared=True, single=single, ow=True)
@@ -1078,8 +1269,21 @@ def c14(res):
             finals.append(fin)
         finally:
             drop_server(sb, srv)
+    # IPv6 loopback
+    sb, srv = with_server("interop-v6", shared=True, ow=True, host="::1")
+    work = os.path.join(os.path.dirname(sb.base), "client")
+    try:
+        for direction, blk, w, nb in (("download", 512, 2, 5), ("upload", 1468, 3, 4)):
+            content = X.make_file(nb, blk, 100)
+            if direction == "download":
+                open(os.path.join(sb.send, "v6.bin"), "wb").write(content)
+            se, ce, fin = IO.one_run(srv, sb, work, direction, "v6.bin", content, blk, w, 1, "v6-%s" % direction, host="::1")
+            xfer_events += se + ce
+            finals.append(fin)
+    finally:
+        drop_server(sb, srv)
     if not q:
-        # IPv6 loopback, long transfers across the block-number wrap, very large windows
+        # long transfers across the block-number wrap, very large windows
         sb, srv = with_server("interop-big", shared=True, ow=True)
         work = os.path.join(os.path.dirname(sb.base), "client")
         try:
